@@ -1,5 +1,6 @@
 """Obligations, findings, evidence files, known-findings matching, CLI."""
 import argparse
+import ast
 import importlib
 import json
 import os
@@ -47,9 +48,12 @@ class Ob:
 class Ctx:
   """What a property's rule module receives."""
 
-  def __init__(self, repo=None):
-    self.ix = Index(repo)
-    self.prog = Program(self.ix)
+  def __init__(self, repo=None, shared=None):
+    # `shared` = (Index, Program) built once for several properties of one tree (tools/batch.py); both are read-only to the rules
+    self.ix, self.prog = shared if shared is not None else (None, None)
+    if self.ix is None:
+      self.ix = Index(repo)
+      self.prog = Program(self.ix)
     self.obs = []
     self.analysis_errors = []
     self.notes = []
@@ -264,8 +268,67 @@ def unfamiliar_demotion(ctx):
   return out
 
 
+_IFACE = None
+
+
+def changed_interfaces(ctx):
+  """Reference functions whose interface (parameter kinds / count, generator-ness, shapes returned) differs from the reference tree:
+  {qual: description}.  The rules read a helper's callers against the reference protocol; when that protocol was changed on both
+  sides, what they see is a form they cannot interpret, not a violation."""
+  global _IFACE
+  if _IFACE is None:
+    try:
+      with open(os.path.join(os.path.dirname(os.path.abspath(__file__)), 'canon_iface.json')) as f:
+        _IFACE = json.load(f)
+    except (OSError, ValueError):
+      _IFACE = {}
+  from .canon import interface_of
+  out = {}
+  for f in ctx.ix.all_funcs():
+    ref = (_IFACE.get(f.module.name) or {}).get(f.qual)
+    if ref is None or not hasattr(f, 'node') or isinstance(f.node, ast.ClassDef):
+      continue
+    cur = interface_of(f.node)
+    diff = [k for k in ('pos', 'kwonly', 'var', 'kw', 'gen') if cur[k] != ref[k]]
+    if set(cur['rets']) != set(ref['rets']) and not (set(cur['rets']) <= {'value'} and set(ref['rets']) <= {'value'}):
+      diff.append('rets')
+    if diff:
+      out[f.qual] = ', '.join('%s: %s -> %s' % (k, ref[k], cur[k]) for k in diff)
+  return out
+
+
+def interface_demotion(ctx):
+  """Failed obligations in a function that calls (or is) a reference function whose interface changed."""
+  changed = changed_interfaces(ctx)
+  if not changed:
+    return []
+  out = []
+  for o in list(ctx.obs):
+    if o.ok or '::' not in o.construct:
+      continue
+    fl, q = o.construct.split('::', 1)
+    q = q.split('[')[0].split(' ')[0]
+    hit = [f for f in ctx.ix.all_funcs() if f.file == fl and (f.qual.split('.', 1)[1] if '.' in f.qual else f.qual) == q]
+    if not hit:
+      continue
+    f = hit[0]
+    scope = {f.qual}
+    o_ = f.outer
+    while o_ is not None:
+      scope.add(o_.qual)
+      o_ = o_.outer
+    own = set(scope)
+    for q_ in list(scope):
+      scope |= {c for c in ctx.prog.callees(q_) if c}
+    # a verdict about the changed function itself stands: only its callers read a protocol that is no longer the reference's
+    why = sorted((q_, changed[q_]) for q_ in scope - own if q_ in changed)
+    if why:
+      out.append((o, why))
+  return out
+
+
 def run_property(pid, tier='quick', seed=0, repo=None, write=True, quiet=False,
-                 evidence_dir=None):
+                 evidence_dir=None, shared=None):
   """Runs all rules of a property. Returns (exit_code, obligations)."""
   t0 = time.time()
   out = []
@@ -277,7 +340,7 @@ def run_property(pid, tier='quick', seed=0, repo=None, write=True, quiet=False,
 
   analysis_errors = []
   try:
-    ctx = Ctx(repo)
+    ctx = Ctx(repo, shared=shared)
     for m_ in ctx.ix.modules.values():
       if m_.normalized != (0, 0) or m_.renamed_locals:
         ctx.note('normal form of %s: %d helper/closure/temporary rewrites, %d idiom/loop rewrites, %d locals mapped to reference names'
@@ -330,6 +393,17 @@ def run_property(pid, tier='quick', seed=0, repo=None, write=True, quiet=False,
       return 2, [], out
     for o, words in demoted:
       ctx.note('not decided (unfamiliar vocabulary %s): %s %s' % (words, o.rule, o.construct))
+  demoted_i = interface_demotion(ctx)
+  if demoted_i:
+    for o, why in demoted_i:
+      ctx.obs.remove(o)
+      analysis_errors.append('%s at %s could not be decided: the interface of %s changed with respect to the reference tree, so its callers follow '
+                             'a protocol no rule models; the rule read: %s' % (o.rule, o.loc, '; '.join('%s (%s)' % w for w in why), o.what))
+    if not any(not o.ok for o in ctx.obs):
+      say('ANALYSIS-ERROR property=%s %s' % (pid, '; '.join(analysis_errors)))
+      return 2, [], out
+    for o, why in demoted_i:
+      ctx.note('not decided (helper interface changed %s): %s %s' % (why, o.rule, o.construct))
   known = load_known()
   violations = []
   matched = []
@@ -449,4 +523,11 @@ def main(argv=None):
 
 
 if __name__ == '__main__':
-  sys.exit(main())
+  try:
+    rc = main()
+  except SystemExit:
+    raise
+  except BaseException:     # a defect of the tool is never a violation
+    print('ANALYSIS-ERROR tool traceback:\n%s' % traceback.format_exc(), flush=True)
+    rc = 2
+  sys.exit(rc)
